@@ -17,7 +17,7 @@ pub fn localizer(l: Loc) -> PathLocalizer {
     }
 }
 
-pub const COMPONENTS: [&str; 10] = ["m", "GameData.bin.lz", "a b", " ", "ü", "日本", "@E", "e_x", "x.", "-"];
+pub const COMPONENTS: [&str; 11] = ["m", "GameData.bin.lz", "a b", " ", "ü", "日本", "@E", "e_x", "x.", "-", "Data\\One.bin"];
 pub const DEGENERATE: [&str; 8] = ["", "/", "..", "a/..", ".", "//", "a/../", "../"];
 
 fn check_one(c: &mut Case, l: Loc, lang: Language, path: &str) {
@@ -47,7 +47,7 @@ pub const REQUIRED: &[&str] = &["table_grid", "degenerate_paths", "fs_localized_
 
 pub fn run(cx: &mut Ctx) {
     cx.require(REQUIRED);
-    cx.rule = "exhaustive: 6 localizers x 8 languages x every path of depth 1..=4 over the components {m, GameData.bin.lz, 'a b', ' ', u-umlaut, two kanji, @E, e_x, 'x.', -} with and without a trailing slash (11110 x 2 paths), plus the degenerate paths \"\", /, .., a/.., ., //; oracle = the literal 6x8 marker table of the statement applied to a string split at the last '/'. Filesystem part: for each supported game x language, localized write/read/exists/list on generated paths under the on-disk monitors of C12 (the file must appear at layer/<expected localized path>). non-trivial = (localizer, language, path shape) triples; the table x shape grid is exhaustive".into();
+    cx.rule = "exhaustive: 6 localizers x 8 languages x every path of depth 1..=4 over the components {m, GameData.bin.lz, 'a b', ' ', u-umlaut, two kanji, @E, e_x, 'x.', -, 'Data\\One.bin' (a backslash is an ordinary character on this platform)} with and without a trailing slash (16104 x 2 paths), plus the degenerate paths \"\", /, .., a/.., ., //; oracle = the literal 6x8 marker table of the statement applied to a string split at the last '/'. Filesystem part: for each supported game x language, localized write/read/exists/list on generated paths under the on-disk monitors of C12 (the file must appear at layer/<expected localized path>). non-trivial = (localizer, language, path shape) triples; the table x shape grid is exhaustive".into();
     let miri = cfg!(miri);
     let depth_max = if miri { 2 } else { 4 };
     // one case per (localizer, language): enumerates all shapes
